@@ -759,7 +759,7 @@ def b_comments(tier, seed):
     for key, root in docs:
         text = gen.render(root)
         lines = text.split("\n")
-        out_lines, expect_end, expect_above, cid = [], {}, {}, 0
+        out_lines, expect_end, expect_above, cid, banners = [], {}, {}, 0, []
         for i, ln in enumerate(lines):
             s = ln.strip()
             word = s.split(" ")[0].upper() if s else ""
@@ -769,7 +769,14 @@ def b_comments(tier, seed):
             if is_opener and rnd.random() < 0.6:
                 cid += 1
                 c = f"# above {cid} {word}"
-                out_lines.append(" " * (len(ln) - len(ln.lstrip())) + c)
+                pad = " " * (len(ln) - len(ln.lstrip()))
+                if rnd.random() < 0.35:
+                    # a banner: identical rule lines above and below the text
+                    rule = "#" + "=" * 12
+                    out_lines += [pad + rule, pad + c, pad + rule]
+                    banners.append(([rule, c, rule], word))
+                else:
+                    out_lines.append(pad + c)
                 expect_above[c] = word
             if simple and rnd.random() < 0.6:
                 cid += 1
@@ -787,14 +794,24 @@ def b_comments(tier, seed):
         except Exception as ex:
             fails.append(dict(key="comments:" + key, error=_exc(ex)))
             continue
-        src_comments = list(expect_end) + list(expect_above)
+        src_comments = list(expect_end) + list(expect_above) + ["#" + "=" * 12]
         printed = re.findall(r"#[^\n]*|/\*.*?\*/", re.sub(r'"[^"\n]*"', '""', out))
         for c in printed:
             if c.strip() not in src_comments:
                 fails.append(dict(key="invented-comment:" + key, comment=c))
+        n_rules = 2 * len(banners)
         for c in set(printed):
-            if printed.count(c) > 1:
+            allowed = n_rules if c.strip() == "#" + "=" * 12 else 1
+            if printed.count(c) > allowed:
                 fails.append(dict(key="duplicated-comment:" + key, comment=c))
+        stripped = [l.strip() for l in out.split("\n")]
+        for group, word in banners:
+            found = False
+            for i in range(len(stripped) - 3):
+                if stripped[i:i + 3] == group and stripped[i + 3].upper().startswith(word):
+                    found = True
+            if not found:
+                fails.append(dict(key="banner-above-opener-changed:" + key, banner=group, opener=word))
         try:
             if norm(L(out)) != norm(L(plain_out)):
                 fails.append(dict(key="comments-change-content:" + key))
